@@ -457,6 +457,8 @@ func runtimeRem(x, y interface{}) interface{} {
 			switch vy.Kind() {
 			case reflect.Int, reflect.Int32, reflect.Int64, reflect.Int16, reflect.Int8:
 				return int(vx.Int() % vy.Int())
+			case reflect.Float32, reflect.Float64:
+				return vx.Int() % int64(vy.Float())
 			}
 		}
 	case reflect.Float64, reflect.Float32:
